@@ -139,6 +139,9 @@ class Ctx:
         clauses, tags = self.classify(fails)
         if not clauses:
             return
+        if "in_domain" in clauses and "input_faithful" in clauses:
+            # the loaded rows no longer say what the input file said: the input was in the domain, the loader output is wrong
+            clauses = [c for c in clauses if c != "in_domain"]
         if "in_domain" in clauses:
             raise tlc.TLCError(f"case {case['id']} is outside the property's input domain (generator bug): {fails}")
         unknown = [c for c in clauses if self.known_for(c, tags) is None]
